@@ -5,11 +5,13 @@ so it links as an executable.
 -/
 import SradModel.Drv.Reseq
 import SradModel.Drv.Codec
+import SradModel.Drv.Host
 
 open Srad Srad.Drv
 
 structure DState where
   reseq : Reseq.St Nat := Reseq.init
+  host : HostD := {}
 
 def step (st : DState) (line : String) : DState × String :=
   match words line with
@@ -17,6 +19,9 @@ def step (st : DState) (line : String) : DState × String :=
     let (r, o) := stepReseq st.reseq rest
     ({ st with reseq := r }, o)
   | "codec" :: rest => (st, stepCodec rest)
+  | "host" :: rest =>
+    let (h, o) := stepHost st.host rest
+    ({ st with host := h }, o)
   | _ => (st, "bad-op")
 
 partial def loop (h : IO.FS.Stream) (out : IO.FS.Stream) (st : DState) : IO Unit := do
